@@ -606,15 +606,24 @@ def implicit_keyword_rule(chk, prog, rule="KWMEM"):
     ce = ConstEval(prog)
     KW = ("is_byte", "is_word", "is_dword")
     setters = []
+    nlocal = 0
+    is_mem_fact = lambda t: t.endswith("->mem_disp") or t.endswith(".mem_disp")
     for fn, f in lib.items():
         if any(c.get("kind") == "CallExpr" and callee_name(c) in ("strtok_r", "strstr") for c in walk(prog.body(f))):
             continue        # the tokeniser sets the explicit keywords
-        for m in walk(prog.body(f)):
+        if not any(m.get("kind") == "MemberExpr" and m.get("name") in KW for m in walk(prog.body(f))):
+            continue
+        # a store that the function itself guards by the memory-operand test needs nothing from its callers
+        for m, facts in GD.facts_at_stores(prog, fn):
             if m.get("kind") == "BinaryOperator" and m.get("opcode") == "=":
                 l = strip(kids(m)[0], casts=True)
                 if l.get("kind") == "MemberExpr" and l.get("name") in KW and ce.try_eval(kids(m)[1]) == 1:
-                    setters.append(fn)
-                    break
+                    if not GD.holds(facts, is_mem_fact, 0, False):
+                        setters.append(fn)
+                        break
+                    nlocal += 1
+                    chk.ok(rule, "%s/%s/local-store@%s" % (rule, fn, loc_str(m)), loc_str(m),
+                           "the implicit keyword is stored under the function's own memory-operand test")
     setters = sorted(set(setters))
     # functions that return NA exactly when there is no memory operand
     na = prog.macro_value("NA") if hasattr(prog, "macro_value") else -1
@@ -647,4 +656,4 @@ def implicit_keyword_rule(chk, prog, rule="KWMEM"):
                         "facts at the call: %s" % sorted("%s %s %s" % (t, "==" if eq else "!=", c) for t, c, eq in facts)[:6])
     chk.analysed["implicit_keyword_setters"] = setters
     chk.analysed["memory_operand_tests"] = sorted(mem_tests)
-    chk.floor("calls of implicit keyword setters", n, 3)
+    chk.floor("calls of implicit keyword setters", n + nlocal, 3)
